@@ -108,6 +108,7 @@ type tableSpec struct {
 	keyField string
 	lower    bool // key is lower-cased
 	single   bool // singleton table (key is a constant)
+	emptyKeyFails bool // the id indexer rejects an empty key (reads and writes fail)
 	indexes  map[string]indexSpec
 }
 
@@ -122,9 +123,9 @@ func addTable(t *tableSpec) {
 }
 
 func init() {
-	addTable(&tableSpec{name: "kvs", rowPkg: structsPkg, rowType: "DirEntry", keyField: "Key",
+	addTable(&tableSpec{name: "kvs", rowPkg: structsPkg, rowType: "DirEntry", keyField: "Key", emptyKeyFails: true,
 		indexes: map[string]indexSpec{"id_prefix": {kind: "prefix"}, "session": {kind: "fieldeq", field: "Session"}}})
-	addTable(&tableSpec{name: "tombstones", rowPkg: statePkg, rowType: "Tombstone", keyField: "Key",
+	addTable(&tableSpec{name: "tombstones", rowPkg: statePkg, rowType: "Tombstone", keyField: "Key", emptyKeyFails: true,
 		indexes: map[string]indexSpec{"id_prefix": {kind: "prefix"}}})
 	addTable(&tableSpec{name: "index", rowPkg: statePkg, rowType: "IndexEntry", keyField: "Key", lower: true})
 	addTable(&tableSpec{name: "sessions", rowPkg: structsPkg, rowType: "Session", keyField: "ID", lower: true,
@@ -217,6 +218,9 @@ func (f *Frame) rowWellFormed(st *State, t *tableSpec, k, r *Term) {
 	work := st.clone()
 	key := f.rowKey(work, t, r)
 	c.assume(st, Implies(Ne(r, IntLit(0)), And(Select(al, r), Eq(key, k))))
+	if t.emptyKeyFails {
+		c.assume(st, Eq(Select(f.tableArr(st, t), Sym("strEmpty", SStr)), IntLit(0)))
+	}
 }
 
 func constString(f *Frame, e ast.Expr) (string, bool) {
@@ -339,7 +343,11 @@ func (f *Frame) memdbLookup(st *State, e *ast.CallExpr, args []*Term) (*Term, *T
 		k := f.argKey(st, t, v, at, e)
 		r := Select(f.tableArr(st, t), k)
 		f.rowWellFormed(st, t, k, r)
-		return r, failed
+		// id-index reads fail exactly when the indexer rejects the key
+		if t.emptyKeyFails {
+			return r, Eq(k, Sym("strEmpty", SStr))
+		}
+		return r, TFalse
 	case "fieldeq":
 		v, _, ok := f.varArg(st, e, packed, 2, 0)
 		if !ok {
@@ -407,9 +415,9 @@ func modelInsert(f *Frame, st *State, e *ast.CallExpr, recv *Term, args []*Term,
 		k = f.rowKey(st, t, obj)
 	}
 	tb := f.tableArr(st, t)
-	c.heapSet(st, tableHeap(t.name), Ite(failed, tb, Store(tb, k, obj)))
-	f.bumpWrites(st, Not(failed))
-	return []*Term{Ite(failed, f.someError(), IfaceNil)}
+	failedT := Or(failed, Eq(k, Sym("strEmpty", SStr)))
+	c.heapSet(st, tableHeap(t.name), Ite(failedT, tb, Store(tb, k, obj)))
+	return []*Term{Ite(failedT, f.someError(), IfaceNil)}
 }
 
 func (f *Frame) bumpWrites(st *State, cond *Term) {
